@@ -61,6 +61,9 @@ func c02Jobs(tier string) []string {
 	// acknowledged with window 0, and the FIN must still leave (a FIN needs no window)
 	add(base+",close=a-shut,read=stall,aw=200,rcvbuf=200,b=1", 2)
 	add(base+",close=both-shut,read=stall,aw=200,bw=50,rcvbuf=200,b=1", 2)
+	// the receiver's right edge crosses 2^32 / 2^31 during the transfer (small receive buffer)
+	add("or=sc,bw=,close=a-shut,mtu=176,aw=1200,rcvbuf=200,issa=4294966796,b=0", 1)
+	add("or=sc,bw=,close=a-shut,mtu=176,aw=1200,rcvbuf=200,issa=2147483148,b=0", 1)
 	// the accepting side speaks first: A is silent until it has read B's data, so only the stack's
 	// answer to a retransmitted SYN-ACK can repair a lost third handshake segment
 	add(base+",close=b-first,bw=24,aw=24,b=1", 1)
